@@ -30,5 +30,5 @@ end Drv
 def main (args : List String) : IO Unit := do
   let stdin ← IO.getStdin
   let stdout ← IO.getStdout
-  let fixed := args.contains "--recon-store-first"
-  Drv.loop stdin stdout { d1 := { variant := { bitBeforeStore := !fixed } } }
+  let pinned := args.contains "--recon-bit-first"
+  Drv.loop stdin stdout { d1 := { variant := { bitBeforeStore := pinned } } }
